@@ -864,6 +864,34 @@ def _locate_if_block(src, s, e, anchor):
         return s + toks[hits[0]].start, s + toks[c].end
 
 
+def _locate_stmt_range(src, s, e, start_anchor, end_anchor):
+    """E3 statement-range lift: from the first token of `start_anchor` to the last token of the first
+    occurrence of `end_anchor` after it (both must be unique / present); absolute offsets"""
+    sub = src[s:e]
+    toks = lex(sub)
+    texts = [t.text for t in toks]
+    a = tok_texts(start_anchor)
+    b = tok_texts(end_anchor)
+    hits = [i for i in range(len(texts) - len(a) + 1) if texts[i:i + len(a)] == a]
+    if len(hits) != 1:
+        raise VxError("lost anchor: statement %r occurs %d times" % (start_anchor, len(hits)))
+    ends = [i for i in range(hits[0], len(texts) - len(b) + 1) if texts[i:i + len(b)] == b]
+    if not ends:
+        raise VxError("lost anchor: end statement %r not found" % end_anchor)
+    # braces must balance inside the range
+    depth = 0
+    for t in toks[hits[0]:ends[0] + len(b)]:
+        if t.kind == "punct" and t.text in _OPEN:
+            depth += 1
+        elif t.kind == "punct" and t.text in _CLOSE:
+            depth -= 1
+            if depth < 0:
+                raise VxError("lost anchor: statement range is not balanced")
+    if depth != 0:
+        raise VxError("lost anchor: statement range is not balanced")
+    return s + toks[hits[0]].start, s + toks[ends[0] + len(b) - 1].end
+
+
 def extract_one(repo, ex, report):
     fpath = os.path.join(repo, ex["file"])
     try:
@@ -872,8 +900,11 @@ def extract_one(repo, ex, report):
         raise VxError("lost anchor: cannot read %s: %s" % (ex["file"], e))
     s, e = locate(src, ex["path"], with_attrs=ex.get("with_attrs", False))
     if ex.get("kind") == "block":
-        s, e = _locate_if_block(src, s, e, ex["statement"])
-        raw = ex["wrap_head"] + " {\n        " + src[s:e] + "\n}"
+        if ex.get("until"):
+            s, e = _locate_stmt_range(src, s, e, ex["statement"], ex["until"])
+        else:
+            s, e = _locate_if_block(src, s, e, ex["statement"])
+        raw = ex["wrap_head"] + " {\n        " + (ex["wrap_pre"] + "\n        " if ex.get("wrap_pre") else "") + src[s:e] + "\n" + ("        " + ex["wrap_tail"] + "\n" if ex.get("wrap_tail") else "") + "}"
         # the wrapper (signature line and braces) is declared text, the statement is verbatim
         src = src[:s] + raw + src[e:]
         e = s + len(raw)
